@@ -63,6 +63,25 @@ def check(run):
                               + errt[errt.find("WARNING"):][:400].replace("\n", " | "), lines=[line],
                               detail={"variant": name, "stderr": errt[-1500:]})
                 break
+        # steady state: distinct objects, distinct inputs per thread (hosts mixing ACE labels and non-ASCII labels, plain
+        # URLs, IPv6, long paths), every result compared with the single-threaded one
+        pool = ["http://xn--bcher-kva.\u00fc.example/", "https://xn--caf-dma.\u65e5\u672c.jp/p", "http://\u00e9.xn--80ak6aa92e.com/",
+                "ws://xn--zca.\u00df.de/x?y", "http://example.com/a b?c d#e", "https://[2001:db8::1]:8080/x", "http://0x7f.1/",
+                "sc://h/p?q", "http://\u00fc\u0308.example/", "https://user:pw@EXAMPLE.com:443/%7Eu/../v", "a=1&b=%2B+c", "xn--mnchen-3ya.de"]
+        for i in range(max(2, reps // 4)):
+            k = rng.choice([2, 3, 4, 8])
+            ins = rng.sample(pool, k)
+            line = f"mtsteady {40 if name == 'tsan' else 2000} " + " ".join(hx(x.encode("utf-8")) for x in ins)
+            code, out, errt = run_fresh(binp, line)
+            run.count()
+            run.nontriv((name, "steady", i, tuple(ins)))
+            if code != 0 or out != "ok":
+                what = "ThreadSanitizer reported a data race" if code == 66 or "ThreadSanitizer" in errt else \
+                    ("a concurrent call returned something else than single-threaded" if out.startswith("MISMATCH") else f"exit code {code}")
+                run.violation(f"mtsteady:{name}:{what}", f"[{name}] {k} threads on distinct objects: {what}: {out[:200]} "
+                              + errt[errt.find("WARNING"):][:400].replace("\n", " | "), lines=[line],
+                              detail={"variant": name, "stderr": errt[-1500:]})
+                break
     run.sample({"op": f"mtfirst 8 {hx(DOMAINS[0])}", "builds": ["tsan", "plain"]})
     run.sample({"op": f"mtlimit 25 26 {hx('http://a:b@www.example.com')} 300"})
-    run.oblige("explore:tsan+results(first-use, limit)", True)
+    run.oblige("explore:tsan+results(first-use, limit, steady state on distinct objects)", True)
